@@ -1,3 +1,1012 @@
-//! ILV: interleaving explorer (stub, replaced below)
-use crate::hook::Event;
-pub fn yield_point(_ev: Event) {}
+//! ILV: preemption-bounded exhaustive interleaving explorer over the real allocator
+//! (DESIGN §4.1). Threads are stackful coroutines; the `verif` hook yields to the
+//! scheduler before every atomic operation.
+
+use std::cell::RefCell;
+use std::collections::{BTreeMap, HashMap, HashSet};
+use std::time::Instant;
+
+use generator::{Generator, Gn};
+use llfree::verif::Kind;
+use serde_json::{Value, json};
+
+use crate::common::{Config, Op, Res, Sut, TreeOp, hash128, panic_signature};
+use crate::crash::Recoverer;
+use crate::hook::{self, Ctx, Event, Mode, mix64};
+use crate::model::Model;
+use crate::oracle::{self, ClassTable, Violation};
+use crate::report::Collector;
+
+/// Step budget for a call running without interference (C21)
+pub const SOLO_BOUND: u64 = 5_000;
+/// Hard horizon per execution (livelock detector)
+pub const HORIZON: u64 = 100_000;
+const STACK_WORDS: usize = 0x8000;
+
+// ---------------------------------------------------------------------------
+// Scenario
+// ---------------------------------------------------------------------------
+
+#[derive(Clone, Debug, PartialEq, Eq, Hash)]
+pub enum TOp {
+    /// A fully resolved call
+    Do(Op),
+    /// Free (part of) the `nth` block this thread allocated itself in this scenario
+    PutOwn {
+        nth: usize,
+        /// (part index, order) to free only one part
+        part: Option<(usize, usize)>,
+        local: Option<usize>,
+    },
+}
+impl TOp {
+    pub fn short(&self) -> String {
+        match self {
+            TOp::Do(op) => op.short(),
+            TOp::PutOwn { nth, part, local } => format!("put_own(#{nth},{part:?},{local:?})"),
+        }
+    }
+    pub fn json(&self) -> Value {
+        match self {
+            TOp::Do(op) => json!({"do": op.json()}),
+            TOp::PutOwn { nth, part, local } => {
+                json!({"put_own": nth, "part": part.map(|p| vec![p.0, p.1]), "local": local})
+            }
+        }
+    }
+    pub fn from_json(v: &Value) -> Option<Self> {
+        if let Some(d) = v.get("do") {
+            return Some(TOp::Do(Op::from_json(d)?));
+        }
+        let nth = v.get("put_own")?.as_u64()? as usize;
+        let part = v["part"]
+            .as_array()
+            .map(|a| (a[0].as_u64().unwrap() as usize, a[1].as_u64().unwrap() as usize));
+        Some(TOp::PutOwn {
+            nth,
+            part,
+            local: v["local"].as_u64().map(|x| x as usize),
+        })
+    }
+}
+
+#[derive(Clone, Debug)]
+pub struct Scenario {
+    pub name: String,
+    pub cfg: Config,
+    /// sequential set-up (hook off)
+    pub setup: Vec<Op>,
+    pub threads: Vec<Vec<TOp>>,
+}
+impl Scenario {
+    pub fn json(&self) -> Value {
+        json!({"name": self.name, "config": self.cfg.json(),
+            "setup": self.setup.iter().map(|o| o.json()).collect::<Vec<_>>(),
+            "threads": self.threads.iter().map(|t| t.iter().map(|o| o.json()).collect::<Vec<_>>()).collect::<Vec<_>>(),
+            "text": self.describe()})
+    }
+    pub fn from_json(v: &Value) -> Option<Self> {
+        Some(Self {
+            name: v["name"].as_str()?.to_string(),
+            cfg: Config::from_json(&v["config"])?,
+            setup: v["setup"]
+                .as_array()?
+                .iter()
+                .map(Op::from_json)
+                .collect::<Option<Vec<_>>>()?,
+            threads: v["threads"]
+                .as_array()?
+                .iter()
+                .map(|t| {
+                    t.as_array()?
+                        .iter()
+                        .map(TOp::from_json)
+                        .collect::<Option<Vec<_>>>()
+                })
+                .collect::<Option<Vec<_>>>()?,
+        })
+    }
+    /// Shape of the concurrent history: op kinds per thread, threads sorted
+    pub fn shape(&self) -> String {
+        fn kind(t: &TOp) -> String {
+            match t {
+                TOp::PutOwn { part: None, .. } => "put".into(),
+                TOp::PutOwn { .. } => "put-part".into(),
+                TOp::Do(op) => match op {
+                    Op::Get { target: None, .. } => "get".into(),
+                    Op::Get { .. } => "get-at".into(),
+                    Op::Put { .. } => "put".into(),
+                    Op::Drain => "drain".into(),
+                    Op::Change { op: Some(TreeOp::Online), .. } => "change-online".into(),
+                    Op::Change { op: Some(TreeOp::Offline), .. } => "change-offline".into(),
+                    Op::Change { .. } => "change-class".into(),
+                    Op::Validate | Op::Queries => "query".into(),
+                },
+            }
+        }
+        let mut ts: Vec<String> = self
+            .threads
+            .iter()
+            .map(|t| t.iter().map(kind).collect::<Vec<_>>().join(";"))
+            .collect();
+        ts.sort();
+        ts.join(" || ")
+    }
+    pub fn describe(&self) -> String {
+        format!(
+            "{} [{}] setup=[{}] threads={}",
+            self.name,
+            self.cfg.describe(),
+            self.setup
+                .iter()
+                .map(|o| o.short())
+                .collect::<Vec<_>>()
+                .join("; "),
+            self.threads
+                .iter()
+                .map(|t| format!(
+                    "[{}]",
+                    t.iter().map(|o| o.short()).collect::<Vec<_>>().join("; ")
+                ))
+                .collect::<Vec<_>>()
+                .join(" || ")
+        )
+    }
+}
+
+// ---------------------------------------------------------------------------
+// Per-execution state shared between the scheduler and the coroutines
+// ---------------------------------------------------------------------------
+
+pub enum Ev {
+    Point(Event),
+    Done,
+}
+
+struct Exec {
+    /// model with completed calls applied (frees applied when they return)
+    model: Model,
+    /// model where frees are applied when they are *called* (C01 held set)
+    m_call: Model,
+    inflight: Vec<Option<Op>>,
+    /// the in-flight free of this thread was already applied to `model` (its frames were reused)
+    early: Vec<bool>,
+    /// blocks allocated by each thread itself, in allocation order (None: failed get)
+    own: Vec<Vec<Option<(usize, usize)>>>,
+    /// completed calls per thread
+    calls: Vec<Vec<(Op, Res)>>,
+    viol: Vec<Violation>,
+    panicked: bool,
+    /// result hash per thread (state cache)
+    res_hash: Vec<u64>,
+    /// op index per thread
+    op_idx: Vec<usize>,
+    /// thread whose call returned during the last resume (resets the solo counter)
+    returned: bool,
+    quiet: bool,
+}
+
+thread_local! {
+    static EXEC: RefCell<Option<Exec>> = const { RefCell::new(None) };
+    static CLASSES: RefCell<Option<ClassTable>> = const { RefCell::new(None) };
+}
+
+fn with_exec<R>(f: impl FnOnce(&mut Exec) -> R) -> R {
+    EXEC.with(|e| f(e.borrow_mut().as_mut().expect("no execution")))
+}
+
+/// Called by the hook inside a coroutine: suspend before an atomic operation
+#[allow(deprecated)]
+pub fn yield_point(ev: Event) {
+    generator::yield_with(Ev::Point(ev));
+}
+
+impl Exec {
+    fn on_call(&mut self, t: usize, top: &TOp, cfg: &Config) -> Option<Op> {
+        let op = match top {
+            TOp::Do(op) => op.clone(),
+            TOp::PutOwn { nth, part, local } => {
+                let (f, o) = (*self.own[t].get(*nth)?)?;
+                let (frame, order) = match part {
+                    Some((idx, po)) => (f + idx * (1usize << po), *po),
+                    None => (f, o),
+                };
+                Op::Put {
+                    frame,
+                    order,
+                    class: cfg.classing.natural_class(order),
+                    local: *local,
+                }
+            }
+        };
+        if self.quiet {
+            return Some(op);
+        }
+        if let Op::Put { frame, order, .. } = &op {
+            // the block leaves the held set when its free is called
+            if self.m_call.free_ok(*frame, *order) {
+                self.m_call.apply_free(*frame, *order);
+            } else {
+                self.viol.push(Violation::new(
+                    "MACHINERY",
+                    "scenario frees a block that is not held",
+                    op.short(),
+                ));
+            }
+        }
+        self.inflight[t] = Some(op.clone());
+        self.early[t] = false;
+        Some(op)
+    }
+
+    fn on_return(&mut self, t: usize, op: &Op, res: Res, cfg: &Config) {
+        self.returned = true;
+        self.op_idx[t] += 1;
+        if self.quiet {
+            return;
+        }
+        self.inflight[t] = None;
+        let mut h = self.res_hash[t];
+        h = mix64(h, {
+            let mut hh = std::collections::hash_map::DefaultHasher::new();
+            std::hash::Hash::hash(&res, &mut hh);
+            std::hash::Hasher::finish(&hh)
+        });
+        self.res_hash[t] = h;
+        match (&res, op) {
+            (Res::Panic(msg), _) => {
+                self.panicked = true;
+                let sig = panic_signature(msg);
+                self.viol.push(Violation::new(
+                    "C03",
+                    format!("panic: {sig}"),
+                    format!("thread {t}: {} panicked: {msg}", op.short()),
+                ));
+                if msg.contains("Exceeding retries") {
+                    self.viol.push(Violation::new(
+                        "C21",
+                        format!("call gave up waiting for another thread: {sig}"),
+                        format!("thread {t}: {} panicked: {msg}", op.short()),
+                    ));
+                }
+            }
+            (Res::Got(f, c), Op::Get { order, class, target, .. }) => {
+                self.own[t].push(Some((*f, *order)));
+                // C01 monitor at the instant the allocation returns
+                if let Err(e) = self.m_call.apply_alloc(*f, *order) {
+                    self.viol.push(Violation::new(
+                        "C01",
+                        "allocation returned a block overlapping a held block / misaligned / out of range",
+                        format!("thread {t}: {} -> {f}: {e}", op.short()),
+                    ));
+                    self.viol.push(Violation::new(
+                        "C03",
+                        "successful allocation returned a block the ownership model forbids",
+                        format!("thread {t}: {} -> {f}: {e}", op.short()),
+                    ));
+                }
+                if let Some(tg) = target
+                    && tg != f
+                {
+                    self.viol.push(Violation::new(
+                        "C01",
+                        "targeted allocation returned another frame",
+                        format!("thread {t}: {} -> {f}", op.short()),
+                    ));
+                }
+                let ok = CLASSES.with(|ct| {
+                    ct.borrow().as_ref().unwrap().allowed[*class as usize][*c as usize]
+                });
+                if !ok || cfg.classing.slots(*c).is_none() {
+                    self.viol.push(Violation::new(
+                        "C13",
+                        "reported class not permitted by policy",
+                        format!("thread {t}: {} reported C{c}", op.short()),
+                    ));
+                }
+                // completed-call model: a concurrent in-flight free may not have
+                // returned yet although its frames were already reused
+                let len = 1usize << *order;
+                if *f % len == 0 && *f + len <= self.model.frames {
+                    if !self.model.block_free(*f, *order) {
+                        // frames freed by a still in-flight put: complete it in the model
+                        self.early_reuse(*f, *order);
+                    }
+                    let _ = self.model.apply_alloc(*f, *order);
+                }
+            }
+            (Res::Err(_), Op::Get { .. }) => {
+                self.own[t].push(None);
+            }
+            (Res::Done, Op::Put { frame, order, .. }) => {
+                if !self.early[t] && self.model.free_ok(*frame, *order) {
+                    self.model.apply_free(*frame, *order);
+                }
+            }
+            (r, Op::Put { .. }) => {
+                self.viol.push(Violation::new(
+                    "C03",
+                    "free of a held block failed",
+                    format!("thread {t}: {} -> {}", op.short(), r.short()),
+                ));
+            }
+            (Res::Done, Op::Change { id: Some(tr), op: Some(top), .. }) => match top {
+                TreeOp::Offline => {
+                    let r = self.model.tree_range(*tr);
+                    if self.model.free_in(r.clone()) != r.len() || self.inflight.iter().any(|o| o.is_some()) {
+                        self.model.unjudged_accounting = true;
+                    }
+                    self.model.offline[*tr] = true;
+                }
+                TreeOp::Online => {
+                    self.model.offline[*tr] = false;
+                }
+            },
+            _ => {}
+        }
+    }
+
+    /// A get returned frames that a still in-flight put is freeing: apply that put to
+    /// the completed-call model now (its effect is visible).
+    fn early_reuse(&mut self, f: usize, order: usize) {
+        let (a0, a1) = (f, f + (1usize << order));
+        let puts: Vec<(usize, usize, usize)> = self
+            .inflight
+            .iter()
+            .enumerate()
+            .filter_map(|(t, o)| match o {
+                Some(Op::Put { frame, order, .. }) if !self.early[t] => Some((t, *frame, *order)),
+                _ => None,
+            })
+            .collect();
+        for (t, pf, po) in puts {
+            let (b0, b1) = (pf, pf + (1usize << po));
+            if a0 < b1 && b0 < a1 && self.model.free_ok(pf, po) {
+                self.model.apply_free(pf, po);
+                self.early[t] = true;
+            }
+        }
+    }
+}
+
+// ---------------------------------------------------------------------------
+// Runner
+// ---------------------------------------------------------------------------
+
+#[derive(Clone, Debug, Default)]
+pub struct IlvOpts {
+    /// maximal number of preemptions (usize::MAX = unbounded)
+    pub bound: usize,
+    /// recover at every persistent write (C05)
+    pub crash: bool,
+    /// run the C10 probe on final states
+    pub c10: bool,
+    /// use the state cache
+    pub cache: bool,
+    /// wall clock cap per scenario
+    pub max_secs: f64,
+    pub max_execs: u64,
+}
+
+#[derive(Clone, Debug, Default)]
+pub struct IlvStats {
+    pub scenarios: u64,
+    pub executions: u64,
+    pub steps: u64,
+    pub sched_points: u64,
+    pub cache_states: u64,
+    pub pruned: u64,
+    pub capped: u64,
+    pub vacuous: u64,
+    pub outcomes: u64,
+    pub max_solo_steps: u64,
+    pub panicked_execs: u64,
+    pub crash_points: u64,
+    pub crash_distinct: u64,
+    pub c10_probes: u64,
+    pub bound_completed: usize,
+    pub per_scenario: Vec<Value>,
+    pub samples: Vec<Value>,
+    pub determinism_checks: u64,
+}
+impl IlvStats {
+    pub fn merge(&mut self, o: IlvStats) {
+        self.scenarios += o.scenarios;
+        self.executions += o.executions;
+        self.steps += o.steps;
+        self.sched_points += o.sched_points;
+        self.cache_states += o.cache_states;
+        self.pruned += o.pruned;
+        self.capped += o.capped;
+        self.vacuous += o.vacuous;
+        self.outcomes += o.outcomes;
+        self.max_solo_steps = self.max_solo_steps.max(o.max_solo_steps);
+        self.panicked_execs += o.panicked_execs;
+        self.crash_points += o.crash_points;
+        self.crash_distinct += o.crash_distinct;
+        self.c10_probes += o.c10_probes;
+        self.determinism_checks += o.determinism_checks;
+        self.per_scenario.extend(o.per_scenario);
+        if self.samples.len() < 8 {
+            self.samples.extend(o.samples.into_iter().take(1));
+        }
+    }
+}
+
+struct SendPtr<T>(*const T);
+unsafe impl<T> Send for SendPtr<T> {}
+impl<T> SendPtr<T> {
+    /// (a method, so that closures capture the whole wrapper)
+    fn get(&self) -> &'static T {
+        unsafe { &*self.0 }
+    }
+}
+impl<T> Clone for SendPtr<T> {
+    fn clone(&self) -> Self {
+        Self(self.0)
+    }
+}
+
+/// One finished execution
+pub struct Trace {
+    /// chosen thread per scheduling point
+    pub choices: Vec<u8>,
+    /// enabled threads (bitmask) per scheduling point
+    pub enabled: Vec<u8>,
+    /// thread that ran before this point (255 = none) and is still enabled
+    pub running: Vec<u8>,
+    pub viol: Vec<Violation>,
+    pub panicked: bool,
+    pub outcome: u128,
+    /// index at which the execution was cut by the state cache (no branching beyond)
+    pub cut: Option<usize>,
+    pub calls: Vec<Vec<(Op, Res)>>,
+    pub max_solo: u64,
+    pub event_hash: u64,
+}
+
+pub struct Runner<'a> {
+    pub sc: &'a Scenario,
+    pub sut: Sut,
+    base: Vec<u8>,
+    model0: Model,
+    gens: Vec<Option<Generator<'static, (), Ev>>>,
+    pub rec: Option<Recoverer>,
+    pub opts: IlvOpts,
+    cache: HashMap<u128, u32>,
+    pub stats: IlvStats,
+}
+
+impl<'a> Runner<'a> {
+    /// Build the allocator and run the set-up. Err if the set-up itself misbehaves.
+    pub fn new(sc: &'a Scenario, opts: IlvOpts) -> Result<Self, String> {
+        let sut = Sut::try_new(&sc.cfg, sc.cfg.init.init(), true)
+            .map_err(|r| format!("construction failed: {}", r.short()))?;
+        let classes = ClassTable::new(sut.policy);
+        let mut model = Model::new(&sc.cfg);
+        let mut viol = vec![];
+        for op in &sc.setup {
+            let before = matches!(op, Op::Change { .. }).then(|| oracle::tree_view(&sut));
+            let res = sut.apply(op);
+            oracle::step(
+                &mut model,
+                &sc.cfg,
+                &classes,
+                op,
+                &res,
+                before.as_ref(),
+                &sut,
+                &mut viol,
+            );
+            if res.is_panic() {
+                return Err(format!("set-up op {} panicked", op.short()));
+            }
+        }
+        CLASSES.with(|c| *c.borrow_mut() = Some(classes));
+        let base = sut.bufs.snapshot();
+        let rec = if opts.crash {
+            Recoverer::new(&sc.cfg)
+        } else {
+            None
+        };
+        Ok(Self {
+            sc,
+            sut,
+            base,
+            model0: model,
+            gens: (0..sc.threads.len()).map(|_| None).collect(),
+            rec,
+            opts,
+            cache: HashMap::new(),
+            stats: IlvStats::default(),
+        })
+    }
+
+    fn spawn(&mut self, t: usize) {
+        let ops = SendPtr(&self.sc.threads[t] as *const Vec<TOp>);
+        let sut = SendPtr(&self.sut as *const Sut);
+        let cfg = SendPtr(&self.sc.cfg as *const Config);
+        let body = move || {
+            let ops = ops.get();
+            let sut = sut.get();
+            let cfg = cfg.get();
+            for top in ops {
+                let op = with_exec(|e| e.on_call(t, top, cfg));
+                let Some(op) = op else {
+                    with_exec(|e| e.op_idx[t] += 1);
+                    continue;
+                };
+                // local state inside a call = f(op index, earlier results, observations of this call)
+                hook::with_ctx(|c| c.obs_hash = 0);
+                let res = match crate::common::catch(|| sut.apply_raw(&op)) {
+                    Ok(r) => r,
+                    Err(p) => Res::Panic(p),
+                };
+                with_exec(|e| e.on_return(t, &op, res.clone(), cfg));
+                with_exec(|e| e.calls[t].push((op.clone(), res)));
+            }
+            Ev::Done
+        };
+        match self.gens[t].as_mut() {
+            Some(g) => g.init_code(body),
+            None => self.gens[t] = Some(Gn::<()>::new_opt(STACK_WORDS, body)),
+        }
+    }
+
+    /// Execute one schedule: follow `prefix` (strictly), then the default policy.
+    /// `budget_at_prefix_end`: remaining preemptions after the prefix (for the cache).
+    pub fn run(&mut self, prefix: &[u8], remaining_budget: u32) -> Trace {
+        let n = self.sc.threads.len();
+        self.sut.bufs.restore(&self.base);
+        EXEC.with(|e| {
+            *e.borrow_mut() = Some(Exec {
+                model: self.model0.clone(),
+                m_call: self.model0.clone(),
+                inflight: vec![None; n],
+                early: vec![false; n],
+                own: vec![vec![]; n],
+                calls: vec![vec![]; n],
+                viol: vec![],
+                panicked: false,
+                res_hash: vec![0; n],
+                op_idx: vec![0; n],
+                returned: false,
+                quiet: false,
+            })
+        });
+        let mut ctx = Ctx::new(Mode::Sched);
+        ctx.check_bounds = true;
+        ctx.ranges = vec![
+            (self.sut.bufs.local.ptr as usize, self.sut.bufs.local.len),
+            (self.sut.bufs.trees.ptr as usize, self.sut.bufs.trees.len),
+            (self.sut.bufs.lower.ptr as usize, self.sut.bufs.lower.len),
+        ];
+        hook::install_ctx(ctx);
+
+        let mut pending: Vec<Option<Event>> = vec![None; n];
+        let mut obs: Vec<u64> = vec![0; n];
+        let mut done = vec![false; n];
+        // park every thread at its first atomic operation
+        for t in 0..n {
+            self.spawn(t);
+            self.resume(t, &mut pending, &mut obs, &mut done);
+        }
+        let mut tr = Trace {
+            choices: Vec::with_capacity(64),
+            enabled: Vec::with_capacity(64),
+            running: Vec::with_capacity(64),
+            viol: vec![],
+            panicked: false,
+            outcome: 0,
+            cut: None,
+            calls: vec![],
+            max_solo: 0,
+            event_hash: 0,
+        };
+        let mut cur: u8 = 255;
+        let mut solo: u64 = 0;
+        let mut step: usize = 0;
+        let lower = (self.sut.bufs.lower.ptr as usize, self.sut.bufs.lower.len);
+        let mut abandoned = false;
+        loop {
+            let mask: u8 = (0..n).fold(0u8, |m, t| if !done[t] { m | (1 << t) } else { m });
+            if mask == 0 {
+                break;
+            }
+            let running = if cur != 255 && !done[cur as usize] {
+                cur
+            } else {
+                255
+            };
+            let choice = if step < prefix.len() {
+                let c = prefix[step];
+                if mask & (1 << c) == 0 {
+                    panic!(
+                        "MACHINERY: schedule prefix diverged at step {step}: thread {c} not enabled in {}",
+                        self.sc.name
+                    );
+                }
+                c
+            } else if running != 255 {
+                running
+            } else {
+                mask.trailing_zeros() as u8
+            };
+            // state cache (only beyond the prefix: the prefix was visited by the parent)
+            if self.opts.cache && step >= prefix.len() {
+                let key = self.state_key(&pending, &obs, &done, running);
+                let budget = if self.opts.bound == usize::MAX {
+                    u32::MAX
+                } else {
+                    remaining_budget
+                };
+                match self.cache.get(&key) {
+                    Some(&b) if b >= budget => {
+                        self.stats.pruned += 1;
+                        tr.cut = Some(step);
+                        abandoned = true;
+                        break;
+                    }
+                    _ => {
+                        self.cache.insert(key, budget);
+                    }
+                }
+            }
+            tr.choices.push(choice);
+            tr.enabled.push(mask);
+            tr.running.push(running);
+            let t = choice as usize;
+            if choice != cur {
+                solo = 0;
+            }
+            // crash point: before a potentially writing operation on the persistent buffer
+            if let Some(ev) = pending[t]
+                && ev.kind != Kind::Load
+                && ev.addr >= lower.0
+                && ev.addr + ev.size <= lower.0 + lower.1
+                && self.rec.is_some()
+            {
+                self.crash_check();
+            }
+            tr.event_hash = mix64(
+                tr.event_hash,
+                pending[t].map(|e| (e.addr as u64) ^ ((e.kind as u64) << 56)).unwrap_or(0) ^ ((t as u64) << 48),
+            );
+            self.resume(t, &mut pending, &mut obs, &mut done);
+            cur = choice;
+            step += 1;
+            solo += 1;
+            let returned = with_exec(|e| std::mem::replace(&mut e.returned, false));
+            if returned {
+                tr.max_solo = tr.max_solo.max(solo);
+                solo = 0;
+            }
+            if solo > SOLO_BOUND {
+                with_exec(|e| {
+                    e.viol.push(Violation::new(
+                        "C21",
+                        "call does not finish within the step budget when running alone",
+                        format!(
+                            "thread {t} ran {solo} uninterrupted steps inside {}",
+                            e.inflight[t].as_ref().map(|o| o.short()).unwrap_or_default()
+                        ),
+                    ))
+                });
+                // the call may never finish: leak its coroutine instead of finishing it
+                if let Some(g) = self.gens[t].take() {
+                    std::mem::forget(g);
+                }
+                done[t] = true;
+                abandoned = true;
+                break;
+            }
+            if step as u64 > HORIZON {
+                with_exec(|e| {
+                    e.viol.push(Violation::new(
+                        "C21",
+                        "execution exceeds the horizon (livelock)",
+                        format!("{step} steps"),
+                    ))
+                });
+                abandoned = true;
+                break;
+            }
+            if with_exec(|e| e.panicked) {
+                // state is meaningless after a panic
+                abandoned = true;
+                break;
+            }
+        }
+        self.stats.steps += step as u64;
+        if abandoned {
+            // finish the remaining coroutines without scheduling and without monitors
+            with_exec(|e| e.quiet = true);
+            hook::with_ctx(|c| c.mode = Mode::Off);
+            for t in 0..n {
+                while !done[t] && self.gens[t].is_some() {
+                    self.resume(t, &mut pending, &mut obs, &mut done);
+                }
+            }
+        }
+        let ctx = hook::take_ctx().unwrap();
+        let mut exec = EXEC.with(|e| e.borrow_mut().take().unwrap());
+        if let Some(ev) = ctx.oob {
+            exec.viol.push(Violation::new(
+                "C18",
+                "atomic access outside the metadata buffers",
+                format!("{:?} at {:#x} size {}", ev.kind, ev.addr, ev.size),
+            ));
+        }
+        tr.panicked = exec.panicked;
+        if !abandoned {
+            // quiescent end: accounting oracles (C04), final crash point, C10 probe
+            if self.rec.is_some() {
+                let lower = self.sut.bufs.lower.slice().to_vec();
+                let rec = self.rec.as_mut().unwrap();
+                rec.check(&lower, &exec.model, &[], &mut exec.viol);
+            }
+            // held blocks are allocated
+            oracle::state(&exec.model, &self.sut, true, &mut exec.viol);
+            if self.opts.c10 && self.sc.cfg.classing.never_invalid() && !exec.model.unjudged_accounting {
+                let bytes = self.sut.bufs.snapshot();
+                self.stats.c10_probes +=
+                    crate::probes::c10_probe(&exec.model, &self.sc.cfg, &self.sut, &bytes, &mut exec.viol);
+            }
+            let mut h = std::collections::hash_map::DefaultHasher::new();
+            std::hash::Hash::hash(&exec.calls, &mut h);
+            tr.outcome = hash128(
+                &self.sut.bufs.snapshot(),
+                std::hash::Hasher::finish(&h),
+            );
+        }
+        tr.viol = exec.viol;
+        tr.calls = exec.calls;
+        self.stats.executions += 1;
+        self.stats.sched_points += tr.choices.len() as u64;
+        self.stats.max_solo_steps = self.stats.max_solo_steps.max(tr.max_solo);
+        if tr.panicked {
+            self.stats.panicked_execs += 1;
+        }
+        tr
+    }
+
+    fn resume(
+        &mut self,
+        t: usize,
+        pending: &mut [Option<Event>],
+        obs: &mut [u64],
+        done: &mut [bool],
+    ) {
+        hook::with_ctx(|c| c.obs_hash = obs[t]);
+        hook::set_in_coroutine(true);
+        let r = self.gens[t].as_mut().unwrap().resume();
+        hook::set_in_coroutine(false);
+        obs[t] = hook::with_ctx(|c| c.obs_hash).unwrap_or(0);
+        match r {
+            Some(Ev::Point(ev)) => pending[t] = Some(ev),
+            Some(Ev::Done) | None => {
+                pending[t] = None;
+                done[t] = true;
+            }
+        }
+    }
+
+    fn state_key(&self, pending: &[Option<Event>], obs: &[u64], done: &[bool], running: u8) -> u128 {
+        let mut x: u64 = running as u64;
+        with_exec(|e| {
+            for t in 0..pending.len() {
+                x = mix64(x, e.op_idx[t] as u64);
+                x = mix64(x, e.res_hash[t]);
+                x = mix64(x, obs[t]);
+                x = mix64(x, done[t] as u64);
+                if let Some(ev) = pending[t] {
+                    x = mix64(x, ev.addr as u64);
+                    x = mix64(x, ev.kind as u64);
+                }
+            }
+        });
+        hash128(&self.sut.bufs.snapshot(), x)
+    }
+
+    fn crash_check(&mut self) {
+        hook::with_ctx(|c| c.mode = Mode::Off);
+        self.crash_check_inner();
+        hook::with_ctx(|c| c.mode = Mode::Sched);
+    }
+
+    fn crash_check_inner(&mut self) {
+        let lower = self.sut.bufs.lower.slice().to_vec();
+        let rec = self.rec.as_mut().unwrap();
+        EXEC.with(|e| {
+            let mut e = e.borrow_mut();
+            let e = e.as_mut().unwrap();
+            let inflight: Vec<Op> = e.inflight.iter().flatten().cloned().collect();
+            let mut v = vec![];
+            rec.check(&lower, &e.model, &inflight, &mut v);
+            e.viol.extend(v);
+        });
+    }
+}
+
+fn preemptions(tr_running: &[u8], choices: &[u8], upto: usize) -> usize {
+    (0..upto)
+        .filter(|&i| tr_running[i] != 255 && choices[i] != tr_running[i])
+        .count()
+}
+
+pub fn replay_json(sc: &Scenario, schedule: &[u8], extra: Value) -> Value {
+    json!({"engine": "ilv", "scenario": sc.json(), "schedule": schedule, "extra": extra})
+}
+
+/// Explore all schedules of `sc` with at most `opts.bound` preemptions.
+pub fn explore(sc: &Scenario, opts: &IlvOpts, col: &mut Collector) -> IlvStats {
+    let t0 = Instant::now();
+    let mut runner = match Runner::new(sc, opts.clone()) {
+        Ok(r) => r,
+        Err(e) => {
+            col.add(
+                Violation::new("MACHINERY", "scenario set-up failed", format!("{}: {e}", sc.name)),
+                || replay_json(sc, &[], json!({})),
+            );
+            return IlvStats {
+                scenarios: 1,
+                ..Default::default()
+            };
+        }
+    };
+    let bound = opts.bound;
+    let mut outcomes: HashSet<u128> = HashSet::new();
+    let mut stack: Vec<(Vec<u8>, usize)> = vec![(vec![], 0)]; // (prefix, preemptions used in prefix)
+    let mut capped = false;
+    let mut first = true;
+    while let Some((prefix, used)) = stack.pop() {
+        if runner.stats.executions >= opts.max_execs || t0.elapsed().as_secs_f64() > opts.max_secs {
+            capped = true;
+            break;
+        }
+        let remaining = if bound == usize::MAX {
+            u32::MAX
+        } else {
+            (bound - used) as u32
+        };
+        let tr = runner.run(&prefix, remaining);
+        if first {
+            // determinism: the same schedule must give identical observations
+            let tr2 = {
+                let saved_cache = std::mem::take(&mut runner.cache);
+                let saved_opt = runner.opts.cache;
+                runner.opts.cache = false;
+                let t = runner.run(&tr.choices, 0);
+                runner.opts.cache = saved_opt;
+                runner.cache = saved_cache;
+                runner.stats.executions -= 1;
+                t
+            };
+            if tr.cut.is_none() && (tr2.event_hash != tr.event_hash || tr2.outcome != tr.outcome) {
+                panic!("MACHINERY: replay of a schedule diverged in {}", sc.name);
+            }
+            runner.stats.determinism_checks += 1;
+            first = false;
+        }
+        if tr.cut.is_none() && !tr.panicked {
+            outcomes.insert(tr.outcome);
+        }
+        for v in &tr.viol {
+            let mut v = v.clone();
+            if !v.clause.starts_with("panic:") && !v.clause.contains("gave up waiting") {
+                v.clause = format!("{} [history: {}]", v.clause, sc.shape());
+            }
+            col.add(v, || {
+                replay_json(sc, &tr.choices, json!({"calls": tr.calls.iter().map(|c| c.iter().map(|(o, r)| format!("{} -> {}", o.short(), r.short())).collect::<Vec<_>>()).collect::<Vec<_>>()}))
+            });
+        }
+        // branch: every alternative at every point beyond the prefix
+        let limit = tr.cut.unwrap_or(tr.choices.len());
+        // preemptions used up to each point (recomputed from the trace itself)
+        let mut used_i = preemptions(&tr.running, &tr.choices, prefix.len().min(limit));
+        debug_assert!(used_i == used || tr.cut.is_some() || prefix.is_empty() || used_i <= used);
+        for i in prefix.len()..limit {
+            let mask = tr.enabled[i];
+            let chosen = tr.choices[i];
+            let running = tr.running[i];
+            for alt in 0..8u8 {
+                if mask & (1 << alt) == 0 || alt == chosen {
+                    continue;
+                }
+                let cost = used_i + (running != 255 && alt != running) as usize;
+                if cost > bound {
+                    continue;
+                }
+                let mut p = tr.choices[..i].to_vec();
+                p.push(alt);
+                stack.push((p, cost));
+            }
+            if running != 255 && chosen != running {
+                used_i += 1;
+            }
+        }
+    }
+    let mut st = std::mem::take(&mut runner.stats);
+    st.scenarios = 1;
+    st.cache_states = runner.cache.len() as u64;
+    st.outcomes = outcomes.len() as u64;
+    st.capped = capped as u64;
+    if outcomes.len() <= 1 && sc.threads.len() > 1 && st.panicked_execs == 0 {
+        st.vacuous = 1;
+    }
+    if let Some(rec) = &runner.rec {
+        st.crash_points = rec.points;
+        st.crash_distinct = rec.distinct;
+    }
+    st.bound_completed = if capped { 0 } else { bound.min(99) };
+    st.per_scenario.push(json!({"scenario": sc.name, "executions": st.executions,
+        "outcomes": st.outcomes, "capped": capped, "secs": t0.elapsed().as_secs_f64(),
+        "cache_states": st.cache_states, "pruned": st.pruned}));
+    st.samples.push(json!({"scenario": sc.describe(), "executions": st.executions,
+        "distinct_outcomes": st.outcomes}));
+    st
+}
+
+/// Run many scenarios on all cores
+pub fn explore_all(scs: &[Scenario], opts: &IlvOpts) -> (IlvStats, Collector) {
+    use std::sync::Mutex;
+    use std::sync::atomic::{AtomicUsize, Ordering};
+    let next = AtomicUsize::new(0);
+    let result = Mutex::new((IlvStats::default(), Collector::default()));
+    let workers = std::thread::available_parallelism()
+        .map(|n| n.get())
+        .unwrap_or(4)
+        .min(scs.len().max(1));
+    std::thread::scope(|s| {
+        for _ in 0..workers {
+            s.spawn(|| {
+                loop {
+                    let i = next.fetch_add(1, Ordering::SeqCst);
+                    if i >= scs.len() {
+                        break;
+                    }
+                    let mut col = Collector::default();
+                    let st = explore(&scs[i], opts, &mut col);
+                    let mut r = result.lock().unwrap();
+                    r.0.merge(st);
+                    r.1.merge(col);
+                }
+            });
+        }
+    });
+    let (mut st, col) = result.into_inner().unwrap();
+    st.bound_completed = if st.capped == 0 { opts.bound.min(99) } else { 0 };
+    (st, col)
+}
+
+/// Re-execute a replay artefact with a fixed schedule (no exploration)
+pub fn replay(v: &Value) -> Result<Vec<String>, String> {
+    let sc = Scenario::from_json(&v["scenario"]).ok_or("bad scenario")?;
+    let schedule: Vec<u8> = v["schedule"]
+        .as_array()
+        .ok_or("no schedule")?
+        .iter()
+        .map(|x| x.as_u64().unwrap_or(0) as u8)
+        .collect();
+    let opts = IlvOpts {
+        bound: 0,
+        crash: v["property"].as_str() == Some("C05"),
+        c10: v["property"].as_str() == Some("C10"),
+        cache: false,
+        max_secs: 60.0,
+        max_execs: 1,
+    };
+    let mut runner = Runner::new(&sc, opts)?;
+    let tr = runner.run(&schedule, 0);
+    let mut out = vec![sc.describe(), format!("schedule {:?}", tr.choices)];
+    for (t, calls) in tr.calls.iter().enumerate() {
+        for (o, r) in calls {
+            out.push(format!("thread {t}: {} -> {}", o.short(), r.short()));
+        }
+    }
+    for v in &tr.viol {
+        out.push(format!("  violates {}: {} ({})", v.prop, v.clause, v.detail));
+    }
+    let _: BTreeMap<u8, u8> = BTreeMap::new();
+    Ok(out)
+}
